@@ -6,7 +6,7 @@ CFG = {
     "lean": "Aqv.Props.C17",
     "exe": "aqmodel_c17",
     "harness": "c17",
-    "overlay": ["p2p/discover/c17_access.go", "p2p/c17_access.go", "aqua/c17_access.go"],
+    "overlay": ["p2p/discover/c17_access.go", "p2p/c17_access.go", "aqua/c17_access.go", "aqua/downloader/c17_access.go"],
     "trivial_outputs": ["err", "decode", "badcode", "toolarge"],
     "timeout": {"quick": 900, "thorough": 3000},
     "rule": "discovery datagrams (both netcompat modes): packets from the real encodePacket with a test key, every truncation, every byte "
@@ -26,6 +26,8 @@ CFG = {
             "mark, snappy on/off) are all read before any payload is consumed (also through Peer.readLoop with a slow handler and pings in "
             "between); every payload must still equal what was written. Consistently inflated RLP length prefixes: 192 short signed datagrams "
             "claiming 2^10..2^63 bytes at 12 string/tail positions with all enclosing lists adjusted; error, no panic, allocation <= 1 MiB. "
+            "Downloader payloads: a real skeleton-fill queue (ScheduleSkeleton/ReserveHeaders) gets 21 shapes of wire-decoded "
+            "BlockHeaders batches (correct, shifted, broken links, 191/193/0 headers, duplicates, huge numbers, unknown peer) for two fill tasks: accept or error, never a panic. "
             "Discovery bonding histories: ping / failed, wrong-ReplyTok or verified ping-back / unsolicited pong / findnode on a real "
             "udp+Table (datagrams through handlePacket; FINDNODE served <=> verified pong from that key; 20 with the ping-back timeout stubbed, 2 with the real 4 s respTimeout). "
             "Silent / stalling peers: 18 scenarios "
@@ -44,6 +46,7 @@ CFG = {
             "discover.NodeID.Pubkey / Node.validateComplete / rlpx handleAuthMsg (via doEncHandshake)": "corr (Go vs Model.Net.idOnCurve / handleAuthMsg) + direct judgement against the curve equation",
             "aqua.ProtocolManager.handle / peer.Handshake, p2p.Server.SetupConn / setupConn / doProtoHandshake, Peer.run readLoop (silent peers)": "direct judgement with per-stage deadlines (never wedges)",
             "discover udp.handlePacket / ping.handle / pong.handle / findnode.handle / Table.bond / pingpong / Table.ping / nodeDB.hasBond": "corr (bond histories vs Model.Net.bondStep / findnodeServed) + direct judgement",
+            "downloader.queue.DeliverHeaders (with ScheduleSkeleton / ReserveHeaders)": "direct judgement (total: accept or error) against Model.Net.deliverSpec",
             "aqua.ProtocolManager.handleMsg / peer.readStatus": "corr on the front (size limit, code dispatch, decode-error path; decode verdict as oracle) + direct judgement"},
     "assumptions": ["Go runtime, math/big, rlp internals and the cryptographic primitives are modelled as parameters, not verified (DESIGN.md 2.5)",
                     "frame_tamper_detected_partial assumes collision-freedom of the truncated Keccak MAC on the two inputs of the comparison reached; unforgeability when both a region and its MAC field are replaced is a cryptographic assumption exercised on the real primitives only",
